@@ -154,7 +154,7 @@ def fn_call(name, case):
         return "enc_emitted (fst (fst (fst (fst (fst (fn %s))))))" % " ".join(args)
     m = case.m; ids = case.ids
     G = pygraph(m.G, ids, m.flow_attr)
-    ign = cL([cE((ids[u], ids[v])) for (u, v) in m.edges_to_ignore if u in ids and v in ids])
+    ign = cL([cE((ids[u], ids[v])) for (u, v) in sorted(m.edges_to_ignore, key=str) if u in ids and v in ids])
     if name == "encode_mef":
         return "enc_emitted (fst (fst (fst (fn %s %s %s %s))))" % (G, cQ(m.ub), ign, "true" if m.weight_type == int else "false")
     es = cL([cE((ids[u], ids[v])) for (u, v) in m.G.edges()])
@@ -229,6 +229,7 @@ def run_generated_c16(ctx): run(ctx, "c16", [(["encode_mef", "encode_mef_obj"], 
 
 
 def run(ctx, family, groups):
+    gencheck.CTX = ctx
     fam = FAMILIES[family]
     base = os.path.join(common.OUT, "work", "gen"); os.makedirs(base, exist_ok=True)
     build_dir = tempfile.mkdtemp(prefix="misc_", dir=base)
